@@ -177,6 +177,29 @@ def run(ctx):
                         if any(pl[r0 + o:r0 + o + n]):
                             return {"key": "address-in:" + names_by_id[t], "recipe": rec, "record": r0 // 128, "offset": o}
         return None
+    # the continuation histories of C05 (option sweep sample + fixed reproducers of fixed findings) are used here for
+    # "copy evolves bitwise identically": source vs copy through the full continuation oracle (1, 7, 50 further steps)
+    hist = c05h.continuation_histories(ctx, rebound, gen, rng)
+    nh_ok = 0
+    for rec in hist:
+        try:
+            fs = gen.continuation_oracle(rebound, rec, ks=(1, 7, 50))
+            nh_ok += 1
+        except Exception as e:
+            try:
+                plain = gen.build(rebound, rec)
+                for k in (1, 7, 50):
+                    gen.steps(plain, k)
+                fs = [{"recipe": rec, "key": "exception:continuation", "detail": repr(e)}]
+            except Exception:
+                fs = []          # the plain, never-copied run raises as well: combination rejected by the library
+        for f in fs:
+            if str(f.get("key", "")).startswith("twin:") or f.get("detail") not in ("copy", None):
+                continue         # C17 judges the copy; restored-vs-original is C05's clause
+            f = dict(f, check="evolved")
+            fails.append(f)
+        ctx.case(key=("hist", rec.get("id")))
+    ctx.obligation("oracle:continuation histories (shared with C05) ran for the copy clause", nh_ok * 10 >= 4 * max(1, len(hist)), "%d of %d" % (nh_ok, len(hist)))
     for i, rec in enumerate(recipes):
         try:
             st = gen.save_bytes(rebound, gen.build(rebound, rec))
